@@ -64,8 +64,34 @@ let fmt_wres r reread = match r with
   | WErr -> "Err:InvalidInput"
   | WOk bs -> hex_of_bytes bs ^ " " ^ reread bs
 
+let fmt_fai ro = match ro with
+  | None -> "Err"
+  | Some rs -> fmt_list ";" rs (fun r -> String.concat ":"
+      [hex_of_bytes r.f_name; dec_of_n r.f_len; dec_of_n r.f_pos; dec_of_n r.f_lb; dec_of_n r.f_lw])
+let fmt_crai ro = match ro with
+  | None -> "Err"
+  | Some rs -> fmt_list ";" rs (fun r -> String.concat ":"
+      [fmt_opt r.c_rid dec_of_n; fmt_opt r.c_start dec_of_n; dec_of_n r.c_span; dec_of_n r.c_off;
+       dec_of_n r.c_land; dec_of_n r.c_slen])
+
 let handle kind a =
   match kind with
+  | "faiw" ->
+      let recs = parse_list ';' a.(0) (fun r -> match split_on ':' r with
+        | [nm; l; p; lb; lw] -> { f_name = bytes_of_hex nm; f_len = n_of_dec l; f_pos = n_of_dec p;
+                                  f_lb = n_of_dec lb; f_lw = n_of_dec lw }
+        | _ -> failwith "fai") in
+      let text = w_fai recs in
+      Some (hex_of_bytes text ^ " " ^ fmt_fai (read_fai text))
+  | "fair" -> Some (fmt_fai (read_fai (bytes_of_hex a.(0))))
+  | "craiw" ->
+      let recs = parse_list ';' a.(0) (fun r -> match split_on ':' r with
+        | [rid; st; sp; off; lmk; sl] -> { c_rid = opt rid n_of_dec; c_start = opt st n_of_dec; c_span = n_of_dec sp;
+                                            c_off = n_of_dec off; c_land = n_of_dec lmk; c_slen = n_of_dec sl }
+        | _ -> failwith "crai") in
+      let text = w_crai recs in
+      Some (hex_of_bytes text ^ " " ^ fmt_crai (read_crai text))
+  | "crair" -> Some (fmt_crai (read_crai (bytes_of_hex a.(0))))
   | "csiw" ->
       let i = { ci_ms = n_of_dec a.(0); ci_depth = nat_of_int (int_of_string a.(1)); ci_header = parse_hdr a.(2);
                 ci_refs = parse_list '/' a.(3) parse_cref; ci_unplaced = opt a.(4) n_of_dec } in
